@@ -18,6 +18,12 @@ CLAIMS = {
  "C05": dict(level="other", ref="7/C05",
    text="Deductive core: LetFiller.resolve_constant / visit_Constant are proved to return the overriding value when the dictionary has the name, else the declared value (spec cval, the property's environment), for LetFiller and its subclass RegisterVisitor; visit_default is the identity (so macro parameters that shadow a constant are left alone); visit_LoopStatement and visit_BlockStatement are proved to emit the same block kind, the subcircuit annotation with its substituted count, the substituted loop count and one entry per child. The end-to-end sentence (no constant left anywhere, meaning equal to the original in the chosen environment, through the circuit rebuild) is exercised by the bounded stand-in with override dictionaries.",
    note="Assumed: LetFiller.visit_GateStatement (assumed contract), circuitbuilder.build (the rebuild) is outside the proved part; statement trees acyclic."),
+ "C13": dict(level="other", ref="7/C13",
+   text="Deductive core: UsedQubitIndicesVisitor.visit_NamedQubit is proved to return exactly {root register name: {phys index}} for every alias chain (sharing the C06 spec), raising JaqalError exactly when the reference is out of range at some level. The set algebra of merge_into and the block/macro/loop traversal are NOT yet under contract (dict-of-sets mutation of a caller-owned container is outside what pyvc models); exactness through macros, loops, blocks, busy and idle gates, rejection iff two parallel branches intersect, and branch-order independence are exercised by the bounded stand-in against an independent reference.",
+   note="Trusted: pyvc, z3; bounded part uses bounded/ref.py's reference semantics as oracle."),
+ "C14": dict(level="other", ref="7/C14",
+   text="Deductive core, proved for all inputs: (1) NamedQubit.__init__ raises JaqalError exactly when the literal index is not an integer value in 0..size-1 of a source whose size is known - so every qubit reference that exists (parsed, let-substituted, overridden, macro-substituted: all go through this constructor) is in range; (2) Register.__getitem__ likewise; (3) Register.resolve_qubit / NamedQubit.resolve_qubit raise JaqalError exactly when the index is out of range at some level of the alias chain and otherwise return the C06 index - never a different qubit; (4) Parameter.validate accepts exactly the property's kind table; (5) replace_gate rejects wrong macro arity. Undefined / doubly defined identifiers, non-register sources, unknown gates and slice bounds at construction are exercised by the exhaustive boundary matrix of the bounded stand-in (not proved).",
+   note="Builder functions (Builder.build, add_to_context, build_map, get_gate_definition) and Register.__init__ are not under contract; IR graphs acyclic; sizes given by nested constants-of-constants are treated as unknown at construction (checked at resolution)."),
 }
 NA_REASON = "check not built yet in this round (work in progress; DESIGN.md section 7 gives the planned contracts)"
 
